@@ -82,6 +82,82 @@ Qed.
 Lemma close_after_end_reads_nothing b d : d_seen d = true -> d_close b d = Some (mkd (uclose (d_u d)) true).
 Proof. intros H. unfold d_close. now rewrite H. Qed.
 
+(* ---- bodies of any size: the machine in units ---- *)
+Lemma scale_lt m k s : (k * S m + m <? scale_seg m s) = (k <? s).
+Proof.
+  unfold scale_seg. destruct (k <? s) eqn:E.
+  - apply Nat.ltb_lt in E. apply Nat.ltb_lt.
+    assert (H : S k * S m <= s * S m) by (apply Nat.mul_le_mono_r; lia). lia.
+  - apply Nat.ltb_ge in E. apply Nat.ltb_ge.
+    assert (H : s * S m <= k * S m) by (apply Nat.mul_le_mono_r; lia). lia.
+Qed.
+
+Lemma scale_rest m k s : k < s -> scale_seg m s - S (k * S m + m) = scale_seg m (s - S k).
+Proof.
+  intros E. unfold scale_seg.
+  assert (H : (s - S k) * S m = s * S m - S k * S m) by apply Nat.mul_sub_distr_r.
+  assert (H2 : S k * S m <= s * S m) by (apply Nat.mul_le_mono_r; lia). lia.
+Qed.
+
+Lemma scale_size m k : S k * S m = S (k * S m + m).
+Proof. lia. Qed.
+
+Lemma uread_scaled m u k :
+  uread (scale_under m u) (k * S m) =
+  let '(n, r, u') := uread u k in (n * S m, r, scale_under m u').
+Proof.
+  destruct u as [segs fin fini cl]. unfold scale_under; cbn [u_segs u_fin u_finished u_closes].
+  destruct segs as [|s rest].
+  - unfold uread; cbn [u_segs u_fin u_closes map]. destruct fin; reflexivity.
+  - destruct k as [|k].
+    + reflexivity.
+    + rewrite scale_size. unfold uread; cbn [u_segs u_fin u_closes u_finished map].
+      rewrite scale_lt. destruct (k <? s) eqn:E.
+      * apply Nat.ltb_lt in E. cbn [map u_segs u_fin u_finished u_closes].
+        f_equal; [f_equal; lia|]. f_equal. f_equal. now apply scale_rest.
+      * assert (Hs : S (scale_seg m s) = S s * S m) by (unfold scale_seg; lia).
+        destruct rest as [|s2 rest2]; [destruct fin|]; cbn [map u_segs u_fin u_finished u_closes]; rewrite Hs; reflexivity.
+Qed.
+
+Lemma d_read_scaled m d k :
+  d_read (scale_drc m d) (k * S m) =
+  let '(n, r, d') := d_read d k in (n * S m, r, scale_drc m d').
+Proof.
+  unfold d_read, scale_drc; cbn [d_u d_seen]. rewrite uread_scaled.
+  destruct (uread (d_u d) k) as [[n r] u'].
+  assert (Hs : seen_after (k * S m) (n * S m) r = seen_after k n r).
+  { unfold seen_after. destruct r; try reflexivity.
+    - destruct n, k; reflexivity.
+    - destruct n, k; reflexivity. }
+  rewrite Hs. reflexivity.
+Qed.
+
+Lemma seg_bytes_scaled m l : seg_bytes (map (scale_seg m) l) = seg_bytes l * S m.
+Proof.
+  induction l as [|s l IH]; [reflexivity|]. cbn [map seg_bytes]. rewrite IH. unfold scale_seg. lia.
+Qed.
+
+Lemma d_reads_scaled m sizes : forall d,
+  d_reads (scale_drc m d) (map (fun k => k * S m) sizes) = scale_drc m (d_reads d sizes).
+Proof.
+  induction sizes as [|k sizes IH]; intros d; [reflexivity|].
+  cbn [map d_reads]. rewrite d_read_scaled. destruct (d_read d k) as [[n r] d']. apply IH.
+Qed.
+
+(* the body counted in units is the same machine: Reads return S m times as much with the same error, and what is
+   left is S m times what is left *)
+Lemma drain_any_unit m d k :
+  d_read (scale_drc m d) (k * S m) = (let '(n, r, d') := d_read d k in (n * S m, r, scale_drc m d')) /\
+  seg_bytes (u_segs (d_u (scale_drc m d))) = seg_bytes (u_segs (d_u d)) * S m.
+Proof. split; [apply d_read_scaled | apply seg_bytes_scaled]. Qed.
+
+(* a drain that gives up after a bounded number of Reads leaves a long enough body undrained *)
+Lemma capped_drain_refuted :
+  exists cap b segs fin,
+    let d' := d_close_capped cap b (d_init segs fin) in
+    u_closes (d_u d') = 1 /\ u_finished (d_u d') = false /\ 0 < seg_bytes (u_segs (d_u d')).
+Proof. exists 2, 0, [4], FEof. cbn. repeat split; lia. Qed.
+
 (* ====================== (ii) one call ====================== *)
 
 Lemma run_closed_done : forall ops sk df pe cl dl, w_done (run_writer false ops sk df pe cl dl) = true.
@@ -528,6 +604,36 @@ Proof.
   - intros p Hp. specialize (H1 p Hp). lia.
   - intros Hn. specialize (H2 Hn). lia.
 Qed.
+
+(* ---- an http.Client with a Timeout of its own ---- *)
+Lemma client_timeout_only_shortens parent now timeout client d :
+  effective_deadline parent now timeout = Some d ->
+  exists d', effective_deadline_with_client parent now timeout client = Some d' /\ (d' <= d)%Z.
+Proof.
+  intros H. unfold effective_deadline_with_client. rewrite H.
+  destruct (client <=? 0)%Z; eexists; (split; [reflexivity | lia]).
+Qed.
+
+Lemma client_timeout_none parent now timeout client :
+  (client <= 0)%Z -> effective_deadline_with_client parent now timeout client = effective_deadline parent now timeout.
+Proof.
+  intros H. unfold effective_deadline_with_client. apply Z.leb_le in H. now rewrite H.
+Qed.
+
+Lemma client_timeout_bound parent now timeout client d :
+  (0 < client)%Z -> effective_deadline_with_client parent now timeout client = Some d -> (d <= now + client)%Z.
+Proof.
+  intros Hc. unfold effective_deadline_with_client.
+  destruct (client <=? 0)%Z eqn:E; [apply Z.leb_le in E; lia|].
+  destruct (effective_deadline parent now timeout); intros H; inversion H; lia.
+Qed.
+
+Lemma client_instead_refuted :
+  exists parent now timeout client d d',
+    effective_deadline parent now timeout = Some d /\
+    effective_deadline_client_instead parent now timeout client = Some d' /\ (d < d')%Z.
+Proof. exists None, 0%Z, 1%Z, 5%Z, 1%Z, 5%Z. repeat split; reflexivity. Qed.
+
 
 Example ex_drain : exists d',
   d_close 7 (d_reads (d_init [4; 0; 9] FEofWithData) [3; 0; 1]) = Some d' /\ u_closes (d_u d') = 1 /\ u_finished (d_u d') = true.
